@@ -141,6 +141,9 @@ class C04(Prop):
                 else:
                     op = {"id": opid, "s": s, "op": "get_many", "oids": [rng.choice(oids) for _ in range(rng.randint(1, 3))]}
                 ops.append(op)
+                if flavour == "async" and rng.random() < 0.08:
+                    # the caller gives up on this call early (asyncio.wait_for) and goes on using the session
+                    op["cancel_ns"] = rng.choice([lat // 2, lat * 2, sessions[s]["timeout_ns"] // 3]) | 1
                 key = "%d:1" % opid
                 scripts[key] = {"replies": link_fault_items(rng, sessions[s]["timeout_ns"], prev_keys, version, agent, lat)}
                 if rng.random() < 0.1:
@@ -155,7 +158,8 @@ class C04(Prop):
                 per = {s: [o for o in ops if o.get("s") == s] for s in range(nsess)}
                 order = [o.get("s") for o in ops]
                 ops = [per[s].pop(0) for s in order]
-        return {"flavour": flavour, "agent": agent, "sessions": sessions, "ops": ops, "scripts": scripts, "latency_ns": lat, "ready_order_seed": rng.randrange(2**31), "rx_tail": rng.choice(["poison", "keep"]), "sched_seed": rng.randrange(2**31)}
+        send_errors = {"%d:1" % rng.randint(1, max(1, opid)): rng.choice([1, 105, 101, 111]) for _ in range(rng.randint(1, 2))} if rng.random() < 0.1 else {}
+        return {"send_errors": send_errors, "flavour": flavour, "agent": agent, "sessions": sessions, "ops": ops, "scripts": scripts, "latency_ns": lat, "ready_order_seed": rng.randrange(2**31), "rx_tail": rng.choice(["poison", "keep"]), "sched_seed": rng.randrange(2**31)}
 
     def check(self, run):
         out = []
@@ -167,6 +171,11 @@ class C04(Prop):
                 continue
             if op["op"] not in ("get", "get_many"):
                 continue
+            if res.get("cancelled"):
+                # cancelled from outside: nothing is claimed about this call; what it leaves behind
+                # (its late reply, its reader registration) is judged through the calls that follow
+                run.sim.count("probe.call-cancelled-by-caller")
+                continue
             s = res["s"]
             exs = run.exchanges(res)
             if len(exs) != 1:
@@ -174,6 +183,12 @@ class C04(Prop):
                     out.append(V("C04.undocumented-exception", "%s raised %s" % (op["op"], res["exc"]["exc"]), exc=res["exc"]["exc"]))
                 continue
             ex = exs[0]
+            if ex["send_err"] is not None:
+                # the local stack refused the datagram: the call fails with OSError, nothing else is claimed
+                run.sim.count("probe.send-refused")
+                if "ok" in res:
+                    out.append(V("C04.delivered-nonmatching", "nothing was sent (errno %s) but the call returned %r" % (ex["send_err"], res["ok"]), op=op["op"]))
+                continue
             kind, label, verdicts = oracle.exchange_verdict(run, s, ex)
             pending = run.wire_dec[(s, ex["serial"])]
             # direct attribution check, independent of the acceptance model
@@ -260,6 +275,9 @@ def _refresh(self, run, res):
     out = []
     s = res["s"]
     for n, ex in enumerate(run.exchanges(res)):
+        if ex["send_err"] is not None:
+            run.sim.count("probe.send-refused")
+            return out  # the request never left: OSError, nothing else is claimed
         kind, label, verdicts = oracle.exchange_verdict(run, s, ex)
         if kind == UNKNOWN:
             return out
